@@ -587,6 +587,7 @@ func translateHTTP(c c12Case, err error) (res stacks.Result) {
 	}
 
 	res.CType = ct
+	res.BodyWF = stacks.WellFormed(ct, rec.Body.Bytes())
 
 	return res
 }
@@ -735,7 +736,7 @@ func coqOptStr(s *string) string {
 }
 
 func coqHdrs(r stacks.Result) string {
-	return vf.CoqApp("hd", coqOptStr(r.Location), coqOptStr(r.WWW), coqOMedia(r.CType))
+	return vf.CoqApp("hd", coqOptStr(r.Location), coqOptStr(r.WWW), coqOMedia(r.CType), vf.CoqBool(r.BodyWF))
 }
 
 func coqGCode(s string) string {
